@@ -1,6 +1,7 @@
-(** 0006 and 0007: code model = documents, outside the known classes. *)
-From Rocfl Require Import Base.Bytes Model.Layout Model.LayoutSpec Model.KnownC11
-  Proofs.BytesFacts Proofs.LayoutFacts Proofs.LayoutMapFacts Proofs.LayoutPrefixFacts.
+(** 0006 and 0007: code model = documents, for every id and every validated configuration
+    (no known class is left since fix 91d5aeb). *)
+From Rocfl Require Import Base.Bytes Model.Layout Model.LayoutSpec
+  Proofs.BytesFacts Proofs.LayoutFacts Proofs.LayoutMapFacts Proofs.LayoutPrefixFacts Proofs.LayoutCaseFacts.
 From Coq Require Import ZArith Lia ZifyBool ZifyN ZifyNat.
 Ltac Zify.zify_post_hook ::= Z.div_mod_to_equations.
 Open Scope N_scope.
@@ -13,14 +14,48 @@ Arguments N.eqb : simpl never.
 
 (** * 0006 *)
 Lemma map_0006_correct c id dg : c_ext c = E0006 -> cfg_ok c = true ->
-  ustr_wf id = true -> ustr_wf (c_delim c) = true -> c11_casefold c id = false ->
+  ustr_wf id = true -> ustr_wf (c_delim c) = true -> unicode_ok (c_delim c) id = true ->
   refusal (Layout.map c id dg) = LayoutSpec.map c id dg.
 Proof.
-  intros He Hok Wi Wd K. unfold Layout.map, LayoutSpec.map. rewrite He.
-  unfold c11_casefold in K. rewrite He in K. apply negb_false_iff in K.
+  intros He Hok Wi Wd U. unfold Layout.map, LayoutSpec.map. rewrite He.
   unfold map_0006, spec_0006.
-  apply strip_prefix_correct; try assumption.
+  apply strip_prefix_0006_correct; try assumption.
   apply delim_chars_nonempty. now apply cfg_ok_0006.
+Qed.
+
+(** what the path of 0006 is, said without an algorithm: the whole id when the delimiter
+    does not occur in it ignoring case; else the characters of the ORIGINAL id after the
+    right-most occurrence; a panic only when that occurrence ends the id *)
+Lemma map_0006_meaning c id dg : c_ext c = E0006 -> cfg_ok c = true ->
+  ustr_wf id = true -> ustr_wf (c_delim c) = true -> unicode_ok (c_delim c) id = true ->
+  let d := us_chars (c_delim c) in let s := us_chars id in
+  match Layout.map c id dg with
+  | Ok r => (r = us_bytes id /\ forall p k, ~ occurs_at d s p k) \/
+            (exists p k, occurs_at d s p k /\ r = text (skipn (p + k) s) /\ skipn (p + k) s <> [] /\
+                         (forall p' k', occurs_at d s p' k' -> (p' <= p)%nat) /\
+                         (forall k', occurs_at d s p k' -> (k <= k')%nat))
+  | Panic => exists p k, occurs_at d s p k /\ (p + k)%nat = List.length s /\
+                         (forall p' k', occurs_at d s p' k' -> (p' <= p)%nat)
+  | Err => False
+  end.
+Proof.
+  intros He Hok Wi Wd U d s.
+  pose proof (map_0006_correct c id dg He Hok Wi Wd U) as M.
+  unfold LayoutSpec.map in M. rewrite He in M. unfold spec_0006 in M. fold d s in M.
+  pose proof (omit_prefix_meaning d s) as Mean.
+  assert (NoErr : Layout.map c id dg <> Err).
+  { unfold Layout.map. rewrite He. unfold map_0006, strip_prefix_0006.
+    destruct (find_0006 (c_delim c) id) as [[i l]|]; [|discriminate].
+    destruct (blen (us_bytes id) =? i + l); [discriminate|].
+    unfold str_from, str_slice. destruct (_ && _); discriminate. }
+  destruct (omit_prefix d s) as [r| |] eqn:EO; cbn [res_bind] in M.
+  - destruct (Layout.map c id dg) as [r'| |]; try discriminate. cbn [refusal] in M. injection M as ->.
+    destruct Mean as [[-> NoOcc]|(p & k & Occ & -> & NE & Rest)].
+    + left. split; [reflexivity|exact NoOcc].
+    + right. exists p, k. destruct Rest as [R1 R2]. split; [exact Occ|]. split; [reflexivity|]. split; [exact NE|]. split; assumption.
+  - destruct (Layout.map c id dg) as [r'| |]; try discriminate; [congruence|].
+    destruct Mean as (p & k & Occ & L & R & _). exists p, k. split; [exact Occ|]. split; assumption.
+  - contradiction.
 Qed.
 
 (** * 0007: characters of the ASCII range are single bytes *)
@@ -47,16 +82,6 @@ Proof.
   unfold byte_of. rewrite E. unfold is_ascii_byte. lia.
 Qed.
 
-Lemma Forall_skipn {A} (P : A -> Prop) j l : Forall P l -> Forall P (skipn j l).
-Proof.
-  revert l. induction j as [|j IH]; intros l H; [exact H|].
-  destruct l; [constructor|]. inversion H; subst. cbn [skipn]. now apply IH.
-Qed.
-Lemma Forall_firstn {A} (P : A -> Prop) j l : Forall P l -> Forall P (firstn j l).
-Proof.
-  revert l. induction j as [|j IH]; intros l H; [constructor|].
-  destruct l; [constructor|]. inversion H; subst. cbn [firstn]. constructor; [assumption|now apply IH].
-Qed.
 Lemma Forall_replicate {A} (P : A -> Prop) n a : P a -> Forall P (replicate n a).
 Proof. intros H. induction n; cbn [replicate]; constructor; assumption. Qed.
 
@@ -121,11 +146,10 @@ Proof. now rewrite map_rev. Qed.
     until fix 970818d) *)
 Lemma map_0007_correct c id dg : c_ext c = E0007 -> cfg_ok c = true ->
   ustr_wf id = true -> ustr_wf (c_delim c) = true ->
-  c11_casefold c id = false ->
+  unicode_ok (c_delim c) id = true ->
   refusal (Layout.map c id dg) = LayoutSpec.map c id dg.
 Proof.
   intros He Hok Wi Wd K1. unfold Layout.map, LayoutSpec.map. rewrite He.
-  unfold c11_casefold in K1. rewrite He in K1. apply negb_false_iff in K1.
   destruct (cfg_ok_0007 c He Hok) as (Hd & Hts & Hnt).
   unfold map_0007, map_0007_mapped, spec_0007.
   change (us_bytes id) with (O (us_chars id)) in *.
@@ -133,7 +157,7 @@ Proof.
   destruct (forallb in_range (us_chars id)) eqn:IR; cbn [negb]; [|reflexivity].
   assert (Sid : Forall single (us_chars id)).
   { apply Forall_forall. intros u Hu. apply in_range_single. rewrite forallb_forall in IR. now apply IR. }
-  pose proof (strip_prefix_correct (c_delim c) id Wd Wi (delim_chars_nonempty _ Hd) K1) as SP.
+  pose proof (strip_prefix_correct (c_delim c) id Wd Wi (delim_chars_nonempty _ Hd) K1 IR) as SP.
   unfold omitted in SP.
   destruct (omit_prefix (us_chars (c_delim c)) (us_chars id)) as [rest| |] eqn:EO; cbn [res_bind] in *.
   2:{ destruct (strip_prefix (c_delim c) id); try discriminate; reflexivity. }
